@@ -57,3 +57,28 @@ package api
 
 //@ func (API).Shutdown
 //@ iface
+
+// The wrapper EnqueueSQE installs around a request's callback passes the answer on exactly once, unchanged.
+//@ func (*api).EnqueueSQE$1
+//@ props C12 C15
+//@ funcvalue ^callback$ records inner_callback
+//@ assume-error-type Error
+//@ requires [captured] a != nil && a.metrics != nil && a.metrics.ApiInFlight != nil && a.metrics.ApiTotal != nil && sqe != nil && sqe.Submission != nil && sqe.Submission.Tags != nil && sqe.Submission.Kind >= t_api.ReadPromise && sqe.Submission.Kind <= t_api.Echo
+//@ requires (res != nil) != (err != nil)
+//@ ensures calls("inner_callback") == 1 && callarg("inner_callback", 0, 0) == res && callarg("inner_callback", 0, 1) == err
+
+// A completion handed to the api is delivered to the request's callback exactly once, with exactly its
+// completion and error.
+//@ func (*api).EnqueueCQE
+//@ props C12 C15
+//@ funcvalue ^cqe\.Callback$ records cqe_callback
+//@ requires a != nil && cqe != nil && cqe.Callback != nil && (cqe.Completion != nil) != (cqe.Error != nil)
+//@ ensures calls("cqe_callback") == 1 && callarg("cqe_callback", 0, 0) == cqe.Completion && callarg("cqe_callback", 0, 1) == cqe.Error
+
+// The request parked in the one-element buffer by Signal is handed out first, exactly once.
+//@ func (*api).DequeueSQE
+//@ props C12
+//@ requires a != nil
+//@ ensures old(a.buffer) != nil && n >= 1 ==> len(result) >= 1
+//@ ensures a.buffer == nil
+//@ site loop 1 append SQE assert elem == sqe
